@@ -496,7 +496,8 @@ def main(ctx):
     # ~0.4 s each, so the bulk run is unsymbolised and the (few) replays are re-run afterwards
     # with symbolisation to carry a readable stack.
     vlib.seq_correspondence(ctx, hcmd, dcmd, cases, nontrivial=nontrivial, keep_prefix=1,
-                            signature_of=signature_of if ctx.known else None, env=FAST_ENV)
+                            signature_of=signature_of if ctx.known else None, env=FAST_ENV,
+                            timeout=180)
     for path, found in ctx.violations:
         try:
             r = json.load(open(path))
